@@ -74,8 +74,18 @@ Section Store.
   Definition storage_sum (unc : bool) (st : bytes) : id :=
     match storage_data unc st with Some d => H d | None => zero_id end.
 
-  (* NewChunkFromStorage *)
+  (* NewChunkFromStorage (after 27b0229): Data() is produced first; when that fails the object is
+     invalid for EVERY id, reported with the zero sum *)
   Definition new_chunk_from_storage (i : id) (b : bytes) (unc skip : bool) : get_res :=
+    if skip then GetOk b
+    else match storage_data unc b with
+         | None => GetInvalid zero_id
+         | Some d => if N.eqb (H d) i then GetOk b else GetInvalid (H d)
+         end.
+
+  (* NewChunkFromStorage as it was before 27b0229: the sum of an object without data is the zero id,
+     which then passes for the all-zero id *)
+  Definition new_chunk_from_storage_prefix (i : id) (b : bytes) (unc skip : bool) : get_res :=
     if skip then GetOk b
     else if N.eqb (storage_sum unc b) i then GetOk b else GetInvalid (storage_sum unc b).
 
